@@ -139,13 +139,15 @@ func (r *Rendered) expr(e *Expr, min int) {
 		r.emit(P(e.T))
 		r.expr(e.B, p+1)
 	case "and":
-		r.expr(e.A, PAnd)
+		// and/or chains group to the right in this language (which no
+		// program can observe); render so that the tree is the grouping
+		r.expr(e.A, PAnd+1)
 		r.emit(W("and"))
-		r.expr(e.B, PAnd+1)
+		r.expr(e.B, PAnd)
 	case "or":
-		r.expr(e.A, POr)
+		r.expr(e.A, POr+1)
 		r.emit(W("or"))
-		r.expr(e.B, POr+1)
+		r.expr(e.B, POr)
 	case "asg":
 		r.emit(W(e.T))
 		r.emit(P("="))
@@ -243,9 +245,9 @@ func firstTokIsSign(e *Expr) bool {
 			case "bin":
 				min = BinPrec(e.T)
 			case "and":
-				min = PAnd
+				min = PAnd + 1
 			default:
-				min = POr
+				min = POr + 1
 			}
 			if e.A.Prec() < min {
 				return false
